@@ -245,11 +245,34 @@ def occsOf (c : Container N U) : List (Occ N U) :=
   c.campaigns.flatMap campaignOccs ++
   c.triggers.flatMap triggerOccs
 
-/-- `validate()` of a container whose `uuid_dict` already holds the parse-time records `pre`
-    (each recorded with `_record_uuid`, in order, before anything else) -/
-def run (fresh : Nat → U) (pre : List (Occ N U)) (c : Container N U) :
+/-- what happened to `uuid_dict`s before `validate()`: a direct `_record_uuid` on the
+    container's own dictionary (`obj_id` of a top-level sheet row, `add_flow`), or the records
+    of the rows of one `insert_as_block`: ContentIndexParser.get_node_group parses the
+    block against a fresh `RapidProContainer()` that is thrown away — its records can only
+    fail (conflict inside the block), never inform the real container. -/
+inductive PreItem (N U : Type)
+  | own (o : Occ N U)
+  | scratch (os : List (Occ N U))
+  deriving Repr
+
+def recordPre : St N U → List (PreItem N U) → Except (Err N U) (St N U)
+  | st, [] => .ok st
+  | st, .own o :: t =>
+    match recordOcc st o with
+    | .ok st' => recordPre st' t
+    | .error e => .error e
+  | st, .scratch os :: t =>
+    match recordAll (St.empty : St N U) os with
+    | .ok _ => recordPre st t
+    | .error e => .error e
+
+/-- building the container (parse-time records `pre`, from an empty dictionary) and then
+    `validate()` -/
+def run (fresh : Nat → U) (pre : List (PreItem N U)) (c : Container N U) :
     Except (Err N U) (Out N U) :=
-  runOccs fresh St.empty 0 (pre ++ occsOf c)
+  match recordPre St.empty pre with
+  | .error e => .error e
+  | .ok st => runOccs fresh st 0 (occsOf c)
 
 /-- The call sequences of the source that `occsOf`, `recordOcc`, `runOccs` transcribe
     (T1 regenerates them from /repo on every run; `Props/C06.lean` `tables_agree`). -/
